@@ -1296,18 +1296,24 @@ class Trust(Packet):
         super(Trust, self).__init__()
         self.trustlevel = TrustLevel.Unknown
         self.trustflags = []
+        self._body = None
 
     def __bytearray__(self):
         _bytes = bytearray()
         _bytes += super(Trust, self).__bytearray__()
-        _bytes += self.int_to_bytes(self.trustlevel + sum(self.trustflags), 2)
+        if self._body is not None:
+            # the format of trust packets is implementation defined: hand back what was read
+            _bytes += self._body
+        else:
+            _bytes += self.int_to_bytes(self.trustlevel + sum(self.trustflags), 2)
         return _bytes
 
     def parse(self, packet):
         super(Trust, self).parse(packet)
         # self.trustlevel = packet[0] & 0x1f
-        t = self.bytes_to_int(packet[:2])
-        del packet[:2]
+        self._body = bytearray(packet[:self.header.length])
+        del packet[:self.header.length]
+        t = self.bytes_to_int(self._body[:2])
 
         self.trustlevel = t
         self.trustflags = t
